@@ -36,7 +36,11 @@ pub fn generate(rng: &mut Rng, tier: &str, shard: usize, nshards: usize, out: &m
         let keep = i % nshards == shard;
         let p: u64 = match rng.below(6) { 0 => 100, 1 | 2 => 1 + rng.below(5), 3 => 1 + rng.below(150), _ => 1 + rng.below(40) };
         let scale = rng.range(-2000, 2000);
-        let v: BigInt = match rng.below(10) {
+        let v: BigInt = match rng.below(11) {
+            10 => { // bit counts at the f64 exponent limits (2^-1022 normal, 2^-1074 subnormal, underflow)
+                let bits = 1018 + rng.below(64);
+                let hi = BigInt::from(1) << (bits as usize);
+                if rng.chance(1, 4) { hi } else { hi.clone() + BigInt::from(gen_int_len(rng, 40).magnitude().clone()) % hi } }
             0 | 1 | 2 => { // terminating reciprocals 2^i 5^j
                 let i2 = rng.below(61) as u32; let j = rng.below(31) as u32;
                 BigInt::from(2).pow(i2) * BigInt::from(5).pow(j) }
